@@ -9,7 +9,7 @@ RULE = ("case 'enc' = (frame 1..64 bytes, 1..8 pairwise non-overlapping in-frame
         "Every decode/encode is observed on objects with a history: the first use of a frame is made with its signals somewhere else "
         "(then moved into place by assignment), each call is repeated, and once more after another detour; an encode request is also "
         "made with one values dict used for several selector values. A result that depends on that history is a failure. "
-        "Non-trivial = distinct case with at least one supplied non-zero value / non-constant payload.")
+        "30 % of the frames carry signals with offset, limits and start values (start value raw != 0); decoded values are kept while other payloads are decoded before they are re-encoded. Non-trivial = distinct case with at least one supplied non-zero value / non-constant payload.")
 PARTIAL = ["struct.pack rounding for floats is trusted: float values are supplied as exactly representable non-NaN patterns",
            "value-table labels in the data dict go through phys2raw (C04) and are not generated here"]
 ASSUMPTIONS = ["signals pairwise non-overlapping and inside the frame", "signal names unique within a frame"]
@@ -19,7 +19,10 @@ CORRESPONDENCE = "Frame.encode (+ decode of its output) == CanVerif.Frame.encode
 
 def gen_frame(rng):
     n = rng.choice(F.ALL_LENGTHS if rng.random() < 0.6 else F.FD_LENGTHS)
-    return {"size": n, "sigs": F.rand_disjoint_sigs(rng, n, maxn=8)}
+    fd = {"size": n, "sigs": F.rand_disjoint_sigs(rng, n, maxn=8)}
+    if rng.random() < 0.3:
+        fd["sc"] = True          # signals with physical scaling, limits and start values (no business of the raw codec)
+    return fd
 
 
 def enc_case(rng, fd):
@@ -75,6 +78,12 @@ def observe(case):
             r["dec"] = d.get("ok", d.get("err"))
         return r
     d = fr.decode(bytes(c["data"]))
+    # the decoded values are kept while other payloads are decoded with the same frame: they are re-encoded afterwards
+    for other in ([b ^ 0xFF for b in c["data"]], [0] * len(c["data"])):
+        try:
+            fr.decode(bytes(other))
+        except Exception:  # noqa
+            pass
     try:
         b = fr.encode({k: v.raw_value for k, v in d.items()})
     except Exception as e:  # noqa
